@@ -1,5 +1,8 @@
 import PlasVerif.Proofs.Verbatim
 import PlasVerif.Proofs.MathSource
+import PlasVerif.Properties.C04
+import PlasVerif.Properties.C07
+import PlasVerif.Model.NoCharsub
 /-!
 # C11 — Verbatim text and mathematics pass through character-for-character
 
@@ -138,6 +141,21 @@ example : stripBlanks (tokenize defaultCats (src (top .inline (.sym [97, 108] (.
 /-- What the author writes (`render`: a blank after every control word) lexes to `toks` too — `toks` *is* the
     author's token sequence.  Stated for the argument-free fragment; the general case is carried by the `msrc`
     stream (real tokenizer on the written formula vs `toks`). -/
+theorem render_lexes (f : F) (hw : WF f = true) :
+    stripBlanks (tokenize defaultCats (render f)) = toks f :=
+  (lex_render f hw).tokenize
+
+/-- consequently source reconstruction and the author's text agree token for token, blanks aside -/
+theorem math_source_is_what_was_written (f : F) (hw : WF f = true) :
+    stripBlanks (tokenize defaultCats (src (mathTree f))) = stripBlanks (tokenize defaultCats (render f)) := by
+  rw [render_lexes f hw, math_children_roundtrip f hw]
+
+example : stripBlanks (tokenize defaultCats (render (.cmd2 [102, 114] true (.sym [97] .nil) false (.ch 98 .nil)
+    (.root (.ch 51 .nil) true (.ch 120 .nil) (.sup false (.sym [98] .nil) .nil))))) =
+    toks (.cmd2 [102, 114] true (.sym [97] .nil) false (.ch 98 .nil)
+    (.root (.ch 51 .nil) true (.ch 120 .nil) (.sup false (.sym [98] .nil) .nil))) := by decide +kernel
+
+/-- the argument-free special case (kept for reference) -/
 theorem render_lexes_plain (s : List Nat) (h : ∀ c ∈ s, c ∈ mathChars) :
     stripBlanks (tokenize defaultCats s) = s.map chTok :=
   (lex_chars s h).tokenize
@@ -148,6 +166,119 @@ theorem render_lexes_plain (s : List Nat) (h : ∀ c ∈ s, c ∈ mathChars) :
 theorem math_group_asIs_counterexample :
     stripBlanks (tokenize defaultCats (36 :: 120 :: srcGroupAsIs (mathTree (.ch 39 .nil)) ++ [36]))
       ≠ topToks .inline (.ch 120 (.grp (.ch 39 .nil) .nil)) := by decide +kernel
+
+/-! ## text after verbatim is processed normally again (with the C04 context-stack model) -/
+
+section after
+open PlasVerif.Model.Context PlasVerif.Spec.Balanced
+
+/-- The context operations of `VerbatimEnvironment.invoke` and `verb.invoke` are `push(self)`,
+    `setVerbatimCatcodes()`, … scan …, `pop(self)`.  For every context stack, every (non-document) node and
+    every `locals()`: while scanning the current table is the verbatim table (what `verbatimEnv` / `verbCmd`
+    tokenise with), and after the `pop` the category table — every character's category — is exactly the
+    one before the environment, at the same stack depth. -/
+theorem after_verbatim_normal (o : ObjRef) (ho : o.docLevel = false) (locals : List (Nat × Val))
+    (c : Ctx) (hc : c ≠ []) :
+    cats (run [.push (some o) locals, .setVerbatim] c) = verbatimCats ∧
+    cats (run [.push (some o) locals, .setVerbatim, .pop (some o)] c) = cats c ∧
+    (∀ ch, whichCodeCtx (run [.push (some o) locals, .setVerbatim, .pop (some o)] c) ch = whichCodeCtx c ch) ∧
+    (run [.push (some o) locals, .setVerbatim, .pop (some o)] c).length = c.length := by
+  have hnd : notDoc (some o) = true := by simp [notDoc, ho]
+  have hcl : closes (some o) (some o) = true := by simp [closes]
+  have hb : Balanced [Op.setVerbatim] := .op _ _ rfl .nil
+  have e : [Op.push (some o) locals, .setVerbatim, .pop (some o)]
+      = Op.push (some o) locals :: ([Op.setVerbatim] ++ [Op.pop (some o)]) := rfl
+  obtain ⟨g, ns, h, _, _⟩ := PlasVerif.Properties.C04.group_restores (some o) (some o) locals [.setVerbatim] hb hnd hcl c hc
+  refine ⟨?_, ?_, ?_, ?_⟩
+  · simp only [run, List.foldl, step]
+    rw [PlasVerif.Proofs.Context.push_notDoc _ _ _ hnd]
+    rfl
+  · rw [e, h, PlasVerif.Proofs.Context.cats_shape]
+  · intro ch
+    rw [e]
+    exact PlasVerif.Properties.C04.catcode_local (some o) (some o) locals [.setVerbatim] hb hnd hcl c hc ch
+  · rw [e, h, PlasVerif.Proofs.Context.shape_length]
+
+/-- … hence the rest of the input is tokenised exactly as it would have been before the environment:
+    for every body whose end marker occurs first at the end, what `verbatimEnv` leaves unread (`rest`),
+    lexed under the table in force after the `pop`, gives the tokens `rest` gives under the table before. -/
+theorem after_verbatim_rest_tokens (o : ObjRef) (ho : o.docLevel = false) (locals : List (Nat × Val))
+    (c : Ctx) (hc : c ≠ []) (begun : Bool) (esc bg eg : Nat) (name body rest : List Nat)
+    (h : FirstIsFinal (patterns begun esc bg eg name).1 body) (st : St) (p : Bool) :
+    tokFrom (cats (run [.push (some o) locals, .setVerbatim, .pop (some o)] c)) st p
+        (verbatimEnv begun esc bg eg name (body ++ (patterns begun esc bg eg name).1 ++ rest)).resume
+      = tokFrom (cats c) st p rest := by
+  rw [(after_verbatim_normal o ho locals c hc).2.1, verbatim_scan_exact begun esc bg eg name body rest h]
+
+/-- non-vacuity: inside a group that made `@` a letter, after the verbatim environment `@` is a letter again and `%` a comment character -/
+example : let c := run [.push none [], .setCat 64 11] init
+    let o : ObjRef := ⟨7, 0, 3, false, [118], false⟩
+    whichCodeCtx (run [.push (some o) [], .setVerbatim] c) 37 = 12 ∧
+    whichCodeCtx (run [.push (some o) [], .setVerbatim, .pop (some o)] c) 64 = 11 ∧
+    whichCodeCtx (run [.push (some o) [], .setVerbatim, .pop (some o)] c) 37 = 14 := by decide +kernel
+
+end after
+
+/-! ## no character substitution in verbatim text or mathematics (with the C07 normalisation model) -/
+
+section nosub
+open PlasVerif.Model.Digest PlasVerif.Spec.DocTree PlasVerif.Model.NoCharsub
+
+theorem allCharsL_charToks (s : List Nat) : allCharsL (s.map charTok) = s := by
+  induction s with
+  | nil => rfl
+  | cons c s ih => simp [allCharsL, allChars, charTok, ih]
+
+/-- `Node.normalize(charsubs)` — called with any substitution list, from any ancestor — leaves every character
+    below a verbatim, `\verb` or mathematics node as it was, at any depth (`NoCharSubEnvironment.normalize`,
+    `verb.normalize`); in particular the verbatim node's `textContent` is still exactly its content. -/
+theorem no_charsub_in_verbatim_or_math (cs : Bool) :
+    (∀ (it : PlasVerif.Model.Digest.Item) (p : Ref) (kids : List Tree), it.nosub = true →
+      allChars (norm cs (.node it p kids)) = allChars (.node it p kids)) ∧
+    (∀ (ref : Ref) (content : List Nat), allChars (norm cs (verbatimNode ref content)) = content) := by
+  refine ⟨fun it p kids h => PlasVerif.Properties.C07.charsubs_never_in_nosub cs it p kids h, ?_⟩
+  intro ref content
+  rw [verbatimNode, PlasVerif.Properties.C07.charsubs_never_in_nosub cs _ _ _ rfl]
+  simp [allChars, nosubItem, allCharsL_charToks]
+
+/-- end to end for the environment: scan, then document normalisation with the substitution list switched on:
+    the node's text is the body, character for character -/
+theorem verbatim_text_exact (begun : Bool) (esc bg eg : Nat) (name body rest : List Nat) (ref : Ref)
+    (h : FirstIsFinal (patterns begun esc bg eg name).1 body) :
+    allChars (norm true (verbatimNode ref
+      (verbatimEnv begun esc bg eg name (body ++ (patterns begun esc bg eg name).1 ++ rest)).content)) = body := by
+  rw [verbatim_scan_exact begun esc bg eg name body rest h]
+  exact (no_charsub_in_verbatim_or_math true).2 ref body
+
+/-- the same for `\\verb`, every delimiter -/
+theorem verb_text_exact (d : Nat) (body rest : List Nat) (ref : Ref) (hd : d ≠ 42) (hb : closing d ∉ body) :
+    (verbCmd (d :: body ++ closing d :: rest)).map (fun r => allChars (norm true (verbatimNode ref r.res.content))) = some body := by
+  rw [verb_scan_exact d body rest hd hb]
+  exact congrArg some ((no_charsub_in_verbatim_or_math true).2 ref body)
+
+/-- non-vacuity: ``a--b''`` keeps its dashes and quotes in verbatim; in running text it would become `a–b”` -/
+example : allChars (norm true (verbatimNode (.item 1) [97, 45, 45, 98, 39, 39])) = [97, 45, 45, 98, 39, 39] ∧
+    applySubs PlasVerif.Generated.Digest.charsubs [97, 45, 45, 98, 39, 39] = [97, 8211, 98, 8221] := by decide
+
+/-! ### known finding D17 `charsub-in-math-group`: both variants over the C07 model -/
+
+/-- **as-is** (kernel-checked on the witness `$x{'}$`): `bgroup.digest` ends with `paragraphs(force=False)`, which
+    normalises the group *with* the document's substitution list before the group is attached below the math
+    node — the prime becomes U+2019 although the group stands in mathematics. -/
+theorem math_group_digest_asIs_counterexample :
+    allChars (paragraphs false (.node (groupItem (.item 2)) (.item 1) [charTok 39])) = [8217] ∧
+    allChars (paragraphs false (.node (groupItem (.item 2)) (.item 1) [charTok 39]))
+      ≠ allChars (.node (groupItem (.item 2)) (.item 1) [charTok 39]) := by
+  constructor <;> decide
+
+/-- **repaired**: when `paragraphs` knows the node stands in mathematics it normalises without a substitution
+    list, and then no character below the group changes — for every group content, at any depth.  Outside
+    mathematics the repaired function is the pinned one. -/
+theorem math_group_digest_repaired (t : Tree) :
+    allChars (paragraphsInMath true t) = allChars t ∧ paragraphsInMath false t = paragraphs false t :=
+  ⟨by rw [paragraphsInMath]; exact PlasVerif.Properties.C07.norm_false_chars t, rfl⟩
+
+end nosub
 
 /-! ## MathJax payload -/
 
